@@ -58,7 +58,9 @@ fn check_blanks(rows: &[String], log: &[String], ctx: &str) -> Result<(), Fail> 
 
 fn token_line(n: usize, pad: &str) -> String {
     // "~<n>~" ('~' occurs in no other generated text) + padding that keeps the requested length class
-    let p: String = pad.chars().filter(|c| c.is_ascii_alphanumeric()).collect();
+    // (digits only occur inside tokens: on a narrow terminal the wrapped rows of "~5~4" + "~6~" would otherwise
+    // contain the rows of "~4~6" a second time)
+    let p: String = pad.chars().filter(|c| c.is_ascii_alphanumeric()).map(|c| if c.is_ascii_digit() { (b'a' + (c as u8 - b'0')) as char } else { c }).collect();
     format!("~{n}~{p}")
 }
 
